@@ -116,6 +116,39 @@ pub fn sgr_or_link(r: &mut Rng) -> String {
     }
 }
 
+/// A hyperlinked word whose URL has hyphens between alphanumerics (split
+/// points of the hyphen splitter *inside* the escape sequence): the pieces of
+/// such a word are not additive in width, and a cut sequence changes what a
+/// second pass sees.
+pub fn hyphen_link(r: &mut Rng) -> String {
+    let term = if r.coin() { "\u{7}" } else { "\u{1b}\\" };
+    let mut url = String::from(*r.pick(&["http://", "https://", "x:", ""]));
+    let segs = r.range(2, 4);
+    for i in 0..segs {
+        if i > 0 {
+            url.push('-');
+        }
+        let n = r.range(1, 9);
+        for _ in 0..n {
+            url.push(*r.pick(&['a', 'b', 'z', '0', '7', '.', '/', 'm']));
+        }
+    }
+    let label = *r.pick(&["text", "x", "a-b", "well-known", "\u{4f60}\u{597d}", "link here", ""]);
+    format!("\u{1b}]8;;{}{}{}\u{1b}]8;;{}", url, term, label, term)
+}
+
+/// Insert `what` as a word of its own at a random space of `text` (or at its end).
+pub fn inject_word(r: &mut Rng, text: &mut String, what: &str) {
+    let spaces: Vec<usize> = text.char_indices().filter(|(_, c)| *c == ' ').map(|(i, _)| i).collect();
+    if spaces.is_empty() {
+        text.push(' ');
+        text.push_str(what);
+    } else {
+        let at = *r.pick(&spaces);
+        text.insert_str(at, &format!(" {}", what));
+    }
+}
+
 pub const DIRTY: &[&str] = &[
     "\u{1b}", "\u{1b}[", "\u{1b}]", "\u{1b}X", "\u{1b}\u{1b}[0m", "\u{1b}]8;; http://x\u{7}", "\u{1b}[3 1m", "\u{1b}[31",
     "\u{1b}]0;t", "\u{1b}\\", "\u{1b} ", "\u{1b}\n", "\u{1b}你", "\u{1b}[\u{1b}[m", "\u{1b}]a\u{1b}b\u{7}", "\u{1b}[é",
